@@ -98,6 +98,12 @@ def do_op(klepto, backend, w, keys, a, op):
             res['i'] = a.pop(K(op['k']))
         elif t == 'clear':
             a.clear()
+        elif t == 'setdefault':
+            res['i'] = a.setdefault(K(op['k']), op['v'])
+        elif t == 'popkeys':
+            a.popkeys([K(op['k']), K(op['k2'])])
+        elif t == 'popitem':
+            a.popitem()
         elif t == 'open':
             front_open(klepto, backend, w, cached=False)
         elif t == 'get':
